@@ -102,25 +102,28 @@ def program_for(sc):
     else:
         f2 = sc["formula2"]
         body = ["  when " + render_formula(f, flow_leaf), "    send Done()", "  or when " + render_formula(f2, flow_leaf), "    send Done2()"]
+        if sc.get("with_fail"):
+            body += ["  else", "    send Else()"]
     lines.append("flow main")
     lines.append("  match Go()")
     lines += body
     lines.append("  match Never()")
     lines.append("")
     if form != "match":
+        # with_fail: a leaf flow can also FAIL (on its own Fail event): a failed flow can never satisfy its leaf any more
         if param:
-            lines += ["flow leaf $k", "  match Ev(k=$k)", ""]
+            lines += ["flow leaf $k"] + (["  when Ev(k=$k)", "    return", "  or when Fail(k=$k)", "    abort", ""] if sc.get("with_fail") else ["  match Ev(k=$k)", ""])
         else:
             used = leaves_of(f) + (leaves_of(sc["formula2"]) if form == "when" else [])
             for l in sorted(set(used)):
-                lines += ["flow leaf %s" % l.lower(), "  match Ev%s()" % l, ""]
+                lines += ["flow leaf %s" % l.lower()] + (["  when Ev%s()" % l, "    return", "  or when Fail%s()" % l, "    abort", ""] if sc.get("with_fail") else ["  match Ev%s()" % l, ""])
     return "\n".join(lines)
 
 
-def leaf_event(sc, l):
+def leaf_event(sc, l, fail=False):
     if sc.get("leaf_style") == "param":
-        return {"type": "Ev", "k": LEAVES.index(l) + 1}
-    return {"type": "Ev%s" % l}
+        return {"type": "Fail" if fail else "Ev", "k": LEAVES.index(l) + 1}
+    return {"type": ("Fail%s" if fail else "Ev%s") % l}
 
 
 class C07(InterpProp):
@@ -131,7 +134,7 @@ class C07(InterpProp):
             "that becomes active after Go(); executed under ALL delivery orders of its leaf events when it has <= 5 leaves (exhaustive for that formula), 60 seeded orders otherwise, each order with seeded "
             "duplicates, irrelevant events and leaf events delivered before Go(). evaluations = (formula, order) executions; non-trivial = formulas with both and and or; distinct = distinct (form, formula, order)")
     exhaustive_parts = ["all delivery orders of the leaf events for every generated formula with <= 5 leaves"]
-    expected_probes = ["form_match", "form_await", "form_when", "leaves_by_name", "leaves_by_param", "exhaustive_orders", "premature_delivery", "duplicate_delivery", "tie_break_decided"]
+    expected_probes = ["leaf_flow_failed", "all_alternatives_failed", "form_match", "form_await", "form_when", "leaves_by_name", "leaves_by_param", "exhaustive_orders", "premature_delivery", "duplicate_delivery", "tie_break_decided"]
     quick_runs = 700
     thorough_runs = 60000
     chunk = 20
@@ -166,6 +169,7 @@ class C07(InterpProp):
             sc["orders"] = "all" if len(used) <= 5 else [d.shuffle(used, "ord", i) for i in range(60)]
         sc["dnf_groups"] = size
         sc["leaf_style"] = d.choice(["name", "param"], "leafstyle")
+        sc["with_fail"] = form != "match" and d.chance(0.45, "withfail")
         sc["noise_seed"] = d.randint(0, 1 << 30, "noise")
         sc["tie_seed"] = d.randint(0, 1 << 30, "tie")
         return sc
@@ -181,9 +185,16 @@ class C07(InterpProp):
         for i, l in enumerate(order):
             if d.chance(0.3, "noise", oi, i):
                 dl.append(("noise", None))
+            if sc.get("with_fail") and d.chance(0.3, "fail", oi, i):
+                dl.append(("fail", l))  # this leaf flow fails instead of finishing
+                if d.chance(0.3, "late-leaf", oi, i):
+                    dl.append(("leaf", l))  # its event arrives afterwards: the flow is gone, nothing may count
+                continue
             dl.append(("leaf", l))
             if d.chance(0.25, "dup", oi, i):
                 dl.append(("dup", l))
+            if sc.get("with_fail") and d.chance(0.15, "late-fail", oi, i):
+                dl.append(("fail", l))  # a Fail event for a leaf that already finished: irrelevant
         return dl
 
     def run_order(self, sc, deliveries, program, tr=None):
@@ -211,9 +222,9 @@ class C07(InterpProp):
                 elif kind == "noise":
                     ev = {"type": "Irrelevant"}
                 else:
-                    ev = leaf_event(sc, l)
+                    ev = leaf_event(sc, l, fail=(kind == "fail"))
                 out = itp.deliver(ev)
-                marks.append([o["type"] for o in out if o["type"] in ("Done", "Done2")])
+                marks.append([o["type"] for o in out if o["type"] in ("Done", "Done2", "Else")])
             bad = I.check_quiescence(itp.state)
             self.last_cost = I.COUNTER.total * max(1, len(itp.state.flow_states))
             return marks, tie["n"], bad
@@ -267,23 +278,35 @@ class C07(InterpProp):
                 out.probe("premature_delivery")
             if any(k == "dup" for k, _ in dl):
                 out.probe("duplicate_delivery")
-            # oracle
-            got = set()
+            # oracle: a leaf is satisfied by the first terminal event of its flow being the finishing one; a failed leaf can never
+            # be satisfied.  A (monotone) formula is dead once it is false even with every undecided leaf counted as satisfied.
+            got, failed = set(), set()
             active = False
             expected = []
             done = False
+            everyone = set(leaves)
             for (kind, l) in dl:
                 exp = []
                 if kind == "go":
                     active = True
-                elif kind in ("leaf", "dup", "pre") and active and not done:
-                    got.add(l)
+                elif kind in ("leaf", "dup", "pre", "fail") and active and not done:
+                    if l not in got and l not in failed:
+                        (failed if kind == "fail" else got).add(l)
+                    alive1 = evaluate(f1, everyone - failed)
+                    alive2 = f2 is not None and evaluate(f2, everyone - failed)
                     if evaluate(f1, got):
                         exp = ["Done"]
                         done = True
                     elif f2 is not None and evaluate(f2, got):
                         exp = ["Done2"]
                         done = True
+                    elif not alive1 and not alive2:
+                        # await: the awaiting flow fails (nothing is emitted any more); when: the else branch runs
+                        exp = ["Else"] if form == "when" else []
+                        done = True
+                        out.probe("all_alternatives_failed")
+                    if kind == "fail":
+                        out.probe("leaf_flow_failed")
                 expected.append(exp)
             tr.log("order", order, marks == expected)
             if marks != expected:
@@ -305,7 +328,7 @@ class C07(InterpProp):
         dl = sc.get("explicit_deliveries")
         if dl:
             for i, (k, l) in enumerate(dl):
-                if k in ("noise", "dup", "pre"):
+                if k in ("noise", "dup", "pre", "fail"):
                     c = copy.deepcopy(sc)
                     del c["explicit_deliveries"][i]
                     yield c
